@@ -76,7 +76,7 @@ class C13(Profile):
     probes = ['arg_nested_extension_dict', 'arg_observed_data_objects', 'failing_call_checked', 'fault_interrupted_call_checked',
               'object_shared_by_bundle_and_store', 'deepcopy_disjoint', 'assignment_refused', 'stored_dict_by_reference',
               'factory_list_default', 'registration_args_checked', 'marking_on_pooled_dict', 'new_version_of_stored_object',
-              'extensions_dict_of_objects']
+              'extensions_dict_of_objects', 'argument_too_deep_to_copy']
     rule = ('plans: 15-50 public calls drawn swarm-style from 18 op kinds over a shared pool of caller-owned dicts/lists and library objects '
             '(objects are re-used across bundles, stores, versioning and marking calls); ~25% of calls are made to fail (invalid values) and '
             'every 5th run injects I/O faults/crashes into store calls; after every call the deep fingerprint of every argument and of every '
@@ -230,9 +230,28 @@ class C13(Profile):
 
     def corrupt(self, d, op):
         """Make the call fail (or at least take an error path) without touching the nesting."""
-        k = op['c'] % 5
+        k = op['c'] % 6
         d = dict(d)
-        if k == 0:
+        if k == 5:
+            # content nested too deeply for a defensive copy to succeed (600 levels): the call fails - and the copies that
+            # protect the caller's containers must not be what was lost on that path
+            deep = 1
+            for _ in range(600):
+                deep = [deep]
+            if isinstance(d.get('objects'), dict) and d['objects']:
+                objs = dict(d['objects'])
+                last = sorted(objs)[-1]
+                objs[last] = dict(objs[last], x_deep=deep)
+                d['objects'] = objs
+            elif isinstance(d.get('extensions'), dict) and d['extensions']:
+                exts = dict(d['extensions'])
+                last = sorted(exts)[-1]
+                exts[last] = dict(exts[last], x_deep=deep)
+                d['extensions'] = exts
+            else:
+                d['x_deep'] = deep
+            self.world.probe('argument_too_deep_to_copy')
+        elif k == 0:
             d['id'] = 'not-an-id'
         elif k == 1:
             d['x_unknown_property'] = {'nested': [1, 2, 3]}
@@ -258,7 +277,8 @@ class C13(Profile):
         else:
             kwargs = dict(d)   # shallow: nested containers stay caller-owned and pooled through d
             out = self.monitored('construct', lambda **kw: cls(**kw), allow_custom=op['flag'], **kwargs)
-        if out.ok:
+        if out.ok and not (op.get('fail') and op['c'] % 6 == 5):
+            # (an object that holds 600 levels of nesting is not pooled: copy.deepcopy of it meets the interpreter's own limit)
             self.keep(out.value)
 
     op_bad_construct = lambda self, op: self.op_construct(dict(op, fail=True))
@@ -284,7 +304,7 @@ class C13(Profile):
                 b['spec_version'] = '2.0'
             self.keep(b)
             out = self.monitored('parse_bundle', s.parse, b, allow_custom=op['flag'])
-        if out.ok:
+        if out.ok and not (op.get('fail') and op['c'] % 6 == 5):
             self.keep(out.value)
 
     def op_deepcopy(self, op):
@@ -292,6 +312,10 @@ class C13(Profile):
         if v is None:
             return
         out = self.monitored('deepcopy', copy.deepcopy, v)
+        if not out.ok and isinstance(out.exc, RecursionError) and 'too-deep' in repr(fingerprint(v)):
+            # the object holds content nested beyond what copy.deepcopy can walk under the interpreter's recursion limit
+            self.world.stat('deepcopy_of_too_deep_content')
+            return
         if not out.ok:
             raise Violation('deepcopy', 'C13.deepcopy-raised/%s' % type(out.exc).__name__, dict(exc=repr(out.exc)[:300], type=v.get('type')))
         cp = out.value
